@@ -169,6 +169,9 @@ func (p *Protocol) Start() {
 
 		if p.muxerDoneChan == nil {
 			p.SendError(errors.New("could not register protocol with muxer"))
+			// None of the protocol goroutines will be started, so nothing
+			// else will ever signal shutdown to those waiting on DoneChan()
+			close(p.doneChan)
 			return
 		}
 
